@@ -11,8 +11,10 @@ Ties (every run):
    (table-driven ANTLR precedence climbing) and (b) the Lean model's `expected` tree of the source tree; the Lean
    printer's tokens are compared with this file's printer.  A malformed stream (random token soup around valid
    expressions) compares accept/reject and trees.
- * direct oracle: the source tree (its shape *is* Modelica's grouping) and the pymoca AST are evaluated over
-   `fractions.Fraction` / bool / str at three environments; the values must agree.  Literals: exact value and Python
+ * direct oracle: the text is read by `spec_parse`, a recursive-descent parser written straight from the Modelica
+   specification's grammar B.2.7 (independent of printer, model and pymoca; it must return the source tree), and that
+   reading and the pymoca AST are evaluated over `fractions.Fraction` / bool / str at three environments; the values
+   must agree.  In the malformed stream every text the specification derives is checked the same way.  Literals: exact value and Python
    type of integer / real (incl. exponent forms) / Boolean / escape-free string literals.
 """
 import hashlib
@@ -944,6 +946,9 @@ def check_tree(ctx, drv, tree, stream="tree"):
     if ans["parsed"] != ans["expected"]:
         # the theorem parse_mprint says this cannot happen; a difference is a bug of driver or fuel
         raise HarnessError("model: parse(mprint e) differs from expected e on %s" % text)
+    if ans["spec"] != ans["stripped"] or ans["stripped"] != strip_parens(tree):
+        # theorem spec_reads_source; and the Lean reference reader against this file's
+        raise HarnessError("model: specParse(mprint e) differs from strip e on %s" % text)
     if st == "ok":
         exp = canon_expected(ans["expected"])
         got = canon(node)
@@ -982,6 +987,9 @@ def check_tokens(ctx, drv, toks):
     ans = drv.ask({"op": "parse", "tokens": toks})
     if not ans.get("ok"):
         raise HarnessError("model driver rejected %s: %s" % (json.dumps(case)[:300], ans))
+    if ans["spec"] != ref:
+        # two transcriptions of the specification's grammar (Lean `specParse`, `spec_parse` here) must agree
+        raise HarnessError("reference readers differ on %r: Lean %r, Python %r" % (text, ans["spec"], ref))
     if ans["tree"] is None:
         ctx.count("tokens-model-reject")
         if st == "ok":
